@@ -11,6 +11,7 @@ import (
 	"io"
 	"net/http"
 	"net/http/httptest"
+	"os"
 	"regexp"
 	"runtime/debug"
 	"sort"
@@ -142,6 +143,7 @@ func RunIngest(t *testing.T, s Scenario) (ri *simcheck.RunInfo) {
 	var harnessErr string
 	oldLocal := time.Local
 	defer func() { time.Local = oldLocal }()
+	simrt.LargestAlloc()
 	func() {
 		defer func() {
 			if r := recover(); r != nil {
@@ -155,10 +157,51 @@ func RunIngest(t *testing.T, s Scenario) (ri *simcheck.RunInfo) {
 			st.body(ri)
 		})
 	}()
+	st.memoryOracle(ri, simrt.LargestAlloc())
 	if harnessErr != "" {
 		panic("harness: " + harnessErr)
 	}
 	return ri
+}
+
+// memoryOracle: the largest single allocation of a run is bounded by what its clients sent (C05: no body terminates the
+// process - a few bytes on the wire that make the server reserve gigabytes do, by way of the kernel's OOM killer; the
+// size limit on snappy bodies is the mechanism the property names). The allocator is observed through the runtime
+// overlay, so nothing has to run out of memory. The harness's own buffers (bodies, block copies) are part of the
+// measure; the bound - 128 MiB or 16 times the largest body of the run, whichever is larger - is far above them and far below
+// what a declared length can ask for.
+func (st *runState) memoryOracle(ri *simcheck.RunInfo, largest uint64) {
+	var maxBody uint64
+	for _, r := range st.reqs {
+		if uint64(r.BodyLen) > maxBody {
+			maxBody = uint64(r.BodyLen)
+		}
+	}
+	if os.Getenv("VERIF_DEBUG") == "mem" {
+		fmt.Fprintf(os.Stderr, "MEMDEBUG largest=%d maxbody=%d reqs=%d\n", largest, maxBody, len(st.reqs))
+	}
+	if largest > 0 {
+		ri.Probes["largest-single-allocation-observed"]++
+	}
+	limit := uint64(128 << 20)
+	if 16*maxBody > limit {
+		limit = 16 * maxBody
+	}
+	if largest > limit {
+		var who []string
+		sig := "a single allocation far beyond anything a client sent"
+		for _, r := range st.reqs {
+			if strings.Contains(r.Op.Hostile, "gzip-bomb") && st.s.ProbeKnown {
+				sig = "a gzip-encoded body is inflated without bound into a whole-body buffer"
+			}
+			if r.Hostile {
+				who = append(who, fmt.Sprintf("req%d %s %s body=%dB", r.ID, r.Op.Proto, r.Op.Hostile, r.BodyLen))
+			}
+		}
+		ri.Violations = append(ri.Violations, &simcheck.Violation{Property: "C05", Oracle: "allocation-bomb",
+			Signature: sig,
+			Detail:    fmt.Sprintf("the process made one allocation of %d bytes in a run whose largest request body is %d bytes (bound %d); hostile requests: %v", largest, maxBody, limit, who)})
+	}
 }
 
 func (st *runState) body(ri *simcheck.RunInfo) *simrt.Sim {
@@ -452,10 +495,10 @@ func (st *runState) finishWith(ri *simcheck.RunInfo, sim *simrt.Sim, sys *System
 		b   *chfake.Block
 		row int
 	}
-	okRows := map[string][]loc{}     // tag -> successful occurrences
-	okVals := map[float64][]loc{}    // metric value -> successful occurrences
-	okAttr := map[string][]loc{}     // span tag -> successful tag-index rows (key "name")
-	sentNotOk := map[string]int{}    // tag -> occurrences in sample blocks that did not succeed
+	okRows := map[string][]loc{}                 // tag -> successful occurrences
+	okVals := map[float64][]loc{}                // metric value -> successful occurrences
+	okAttr := map[string][]loc{}                 // span tag -> successful tag-index rows (key "name")
+	sentNotOk := map[string]int{}                // tag -> occurrences in sample blocks that did not succeed
 	seriesAtN := map[string]map[string][]int64{} // node -> "fp|type|date" -> EndEv of successful series blocks on that node
 	fpLabels := map[uint64]map[string]bool{}
 	labelFp := map[string]map[uint64]bool{}
